@@ -4,6 +4,17 @@
 #include <stdio.h>
 #include <string.h>
 
+/* Append at most *room bytes of [src, src + len) at *dst. */
+static void bounded_append(char **dst, size_t *room, const char *src, size_t len)
+{
+    len = __MIN__(len, *room);
+    memcpy(*dst, src, len);
+    *dst += len;
+    *room -= len;
+}
+
+/* The result is cut to maxsize - 1 bytes and always terminated;
+   nothing is written if maxsize is 0. */
 void replace_substrings(char *buffer,
                         size_t maxsize,
                         const char *input,
@@ -16,29 +27,21 @@ void replace_substrings(char *buffer,
     const char *strit = input;
     const char *streit = input + inlen;
     char *bufit = buffer;
+    size_t room;
 
-    if (sublen == 0)
-    {
-        size_t len = __MIN__(maxsize - 1, inlen);
-        memcpy(buffer, input, len);
-        buffer[len] = 0;
-    }
+    if (maxsize == 0)
+        return;
+    room = maxsize - 1;
 
     char *finded;
-    while ((finded = igris_memmem(strit, streit - strit, sub, sublen)) != NULL)
+    while (room != 0 &&
+           (finded = igris_memmem(strit, streit - strit, sub, sublen)) != NULL)
     {
-        ptrdiff_t step = finded - strit;
-
-        memcpy(bufit, strit, step);
-        bufit += step;
-        strit += step;
-
-        memcpy(bufit, rep, replen);
-        bufit += replen;
-        strit += sublen;
+        bounded_append(&bufit, &room, strit, finded - strit);
+        bounded_append(&bufit, &room, rep, replen);
+        strit = finded + sublen;
     };
 
-    ptrdiff_t lastlen = streit - strit;
-    memcpy(bufit, strit, lastlen);
-    *(bufit + lastlen) = 0;
+    bounded_append(&bufit, &room, strit, streit - strit);
+    *bufit = 0;
 }
